@@ -101,10 +101,13 @@ def oracle(chk, s, info, rotation, impl, desc):
                                         (1, "snapshot", ("timestamp", "snapshot")),
                                         (2, "targets", ("targets",))):
                     if (tsv, snv, tgv)[idx] < vi[idx]:
-                        changed = root_v > root_i and any(
-                            auth(rotation[root_v - 1], d) != auth(rotation[root_i - 1], d) for d in dep)
-                        withheld = root_v < root_i and any(
-                            auth(rotation[root_v - 1], d) != auth(rotation[root_i - 1], d) for d in dep)
+                        # the roots the cycles after i (failed ones included) ended their walks with: the files
+                        # served are a valid chain, so that is the last root served
+                        between = [info[k]["root_chain_upto"] for k in range(i + 1, j + 1)]
+                        differs = [rv for rv in between if any(
+                            auth(rotation[rv - 1], d) != auth(rotation[root_i - 1], d) for d in dep)]
+                        changed = any(rv > root_i for rv in differs)
+                        withheld = any(rv < root_i for rv in differs)
                         if not changed:
                             chk.violation(
                                 "cycle %d trusted %s version %d, later cycle %d succeeded with version %d and no "
@@ -126,7 +129,10 @@ def oracle(chk, s, info, rotation, impl, desc):
         consistent = v[2] == v[3]
         current_keys = inf["files_signed_in_epoch"] == inf["root_chain_upto"] - 1
         if j > 0 and inf["root_chain_upto"] < max(x["root_chain_upto"] for x in info[:j]):
-            continue    # an older root is in force again: not "a repository that moves forward"
+            # an older root is in force again: not "a repository that moves forward" (what it served still counts
+            # as seen)
+            seen = [max(seen[k], v[k]) for k in range(4)]
+            continue
         if consistent and current_keys and all(v[k] >= seen[k] for k in range(4)):
             if impl[j][0][0] != 0:
                 chk.violation("cycle %d: a correctly signed, unexpired repository at least as new as everything "
